@@ -84,6 +84,10 @@ func Bubble(t *testing.T, f func(t *testing.T)) (msg string) {
 }
 
 func (r *Result) Fail(prop, class, site, format string, a ...any) {
+	if class == "panic" && strings.HasPrefix(site, "harness:") {
+		r.Harness = "panic in simulator code (" + site + "): " + fmt.Sprintf(format, a...)
+		return
+	}
 	r.Violations = append(r.Violations, Violation{Property: prop, Class: class, Site: site, Detail: fmt.Sprintf(format, a...)})
 }
 
@@ -623,6 +627,30 @@ func LibFrame(stack string) string {
 	return "unknown"
 }
 
+// harnessPanicFrame returns the function that raised the panic when that
+// function belongs to the simulator (module verifsim), "" otherwise.
+func harnessPanicFrame(stack string) string {
+	lines := strings.Split(stack, "\n")
+	for i, l := range lines {
+		if !strings.HasPrefix(l, "panic(") {
+			continue
+		}
+		for _, m := range lines[i+1:] {
+			if strings.HasPrefix(m, "\t") || strings.HasPrefix(m, "runtime.") || strings.HasPrefix(m, "panic(") || m == "" {
+				continue
+			}
+			if strings.HasPrefix(m, "verifsim/") {
+				if j := strings.LastIndex(m, "("); j > 0 {
+					m = m[:j]
+				}
+				return m
+			}
+			return ""
+		}
+	}
+	return ""
+}
+
 // Guard runs f and converts a panic into (panicked, message, site).
 func Guard(f func()) (panicked bool, msg, site string) {
 	defer func() {
@@ -630,6 +658,14 @@ func Guard(f func()) (panicked bool, msg, site string) {
 			panicked = true
 			msg = fmt.Sprint(r)
 			site = LibFrame(string(debug.Stack()))
+			if hf := harnessPanicFrame(string(debug.Stack())); hf != "" {
+				// the panic was raised by code of the simulator itself (the first
+				// frame below the runtime's): never the library's doing
+				site = "harness:" + hf
+			}
+			if os.Getenv("VERIF_DEBUG_PANIC") != "" {
+				fmt.Fprintf(os.Stderr, "Guard: panic %v\n%s\n", r, debug.Stack())
+			}
 		}
 	}()
 	f()
